@@ -225,6 +225,9 @@ class FunctionDecoratorManager(DecoratorManager):
 
         self.logger = self.eval_func.logger
 
+        # the guards (@state_active, @time_active incl. hold_off) see one trigger at a time
+        self._dispatch_lock = asyncio.Lock()
+
         def on_func_var_deleted():
             if self.status is DecoratorManagerStatus.RUNNING:
                 self.hass.async_create_task(self.stop())
@@ -275,12 +278,17 @@ class FunctionDecoratorManager(DecoratorManager):
         _LOGGER.debug("Dispatching for %s: %s", self.name, data)
 
         decorators = self.get_decorators(TriggerHandlerDecorator)
-        for dec in decorators:
-            if await dec.handle_dispatch(data) is False:
-                self.logger.debug("Trigger not active due to %s", dec)
-                return
-        for dec in decorators:
-            dec.dispatch_accepted(data)
+        #
+        # a guard can suspend (eg, looking up sunrise for @time_active): another trigger of this
+        # function mustn't pass the hold_off test before this one is recorded as accepted
+        #
+        async with self._dispatch_lock:
+            for dec in decorators:
+                if await dec.handle_dispatch(data) is False:
+                    self.logger.debug("Trigger not active due to %s", dec)
+                    return
+            for dec in decorators:
+                dec.dispatch_accepted(data)
 
         action_ast_ctx = AstEval(
             f"{self.eval_func.global_ctx_name}.{self.eval_func.name}", self.eval_func.global_ctx
